@@ -550,10 +550,85 @@ fn chunk_program(rng: Rng, short: Option<usize>, cuts: Option<&[usize]>, chunked
     (d, first_len)
 }
 
+/// A twin with time: keep-alive 2..4 s, and in the b-run a `tick` across the next-ping deadline
+/// between the fragments of an inbound packet. The a-run has the same ticks in the same order
+/// and delivers the packet in one piece where the b-run delivers its last fragment.
+fn timed_program(rng: Rng, fragmented: bool) -> (Drv, String) {
+    let mut cfg = CfgSpec::basic(128, 512);
+    let mut rng = rng;
+    cfg.ka = 2 + rng.below(3) as u16;
+    let mut d = Drv::new(&cfg, rng);
+    d.split_rx = false;
+    d.connect(&ConnSpec::plain());
+    let n = d.rng.below(4) as usize;
+    let line = PubLine::simple(1, &rand_topic(&mut d.rng, 1, 4), &rand_bytes(&mut d.rng, n)).text();
+    d.x(&line);
+    d.go();
+    // The stream: the PUBACK and an inbound publish with a payload.
+    let mut stream: Vec<u8> = Vec::new();
+    for o in d.broker.deliver_all() {
+        *d.stats.broker.entry(o.kind.to_string()).or_insert(0) += 1;
+        stream.extend(o.bytes);
+    }
+    let first_len = stream.len();
+    let qos = d.rng.below(3) as u8;
+    let payload = rand_bytes(&mut d.rng, 6);
+    if let Some(o) = d.broker.inbound(&mut d.rng, qos, None, Some(payload)) {
+        *d.stats.broker.entry(o.kind.to_string()).or_insert(0) += 1;
+        stream.extend(o.bytes);
+    }
+    // One cut inside the first packet or inside the second one.
+    let cut = if d.rng.pct(40) {
+        d.rng.range(1, first_len as u64 - 1) as usize
+    } else {
+        d.rng.range(first_len as u64 + 1, stream.len() as u64 - 1) as usize
+    };
+    let extra = *d.rng.pick(&[0u64, 1, 250_000]);
+    d.x("poll");
+    if fragmented {
+        d.rx(&stream[..cut]);
+    }
+    // Until the poll waits in the middle of the fragmented packet (or for its first byte).
+    for _ in 0..6 {
+        if !d.suspended() {
+            d.x("poll");
+        }
+        d.go();
+        if d.suspended() && d.unread() == 0 {
+            break;
+        }
+    }
+    // Across the client's next-ping deadline: its own timer interrupts the read.
+    let st = d.interp().verif_state();
+    let deadline = st.next_ping_us.unwrap_or(0);
+    d.tick_to(deadline + extra);
+    d.go();
+    if fragmented {
+        d.rx(&stream[cut..]);
+    } else {
+        d.rx(&stream);
+    }
+    if !d.suspended() {
+        d.x("poll");
+    }
+    d.go();
+    d.drain();
+    let tags = format!("timed=1 ka={} stream={} cut={cut} over={extra}", cfg.ka, stream.len());
+    (d, tags)
+}
+
 pub fn twin_chunk(out: &mut Out, count: u64) {
     const SHORT_LENS: [usize; 9] = [4, 6, 8, 10, 12, 5, 7, 9, 11];
     for twin in 0..count {
         let name = out.base(twin);
+        if twin % 8 == 3 {
+            let (a, tags) = timed_program(out.rng(twin), false);
+            out.emit(twin, ".a", &format!("twin={name} role=a {tags}"), &a);
+            drop(a);
+            let (b, tags) = timed_program(out.rng(twin), true);
+            out.emit(twin, ".b", &format!("twin={name} role=b {tags}"), &b);
+            continue;
+        }
         let short = (twin % 16 == 0).then(|| SHORT_LENS[(twin / 16) as usize % SHORT_LENS.len()]);
         let (a, n) = chunk_program(out.rng(twin), short, None, false);
         out.emit(twin, ".a", &format!("twin={name} role=a stream={n}"), &a);
